@@ -477,7 +477,10 @@ func TestProp(t *testing.T) {
 			if run.Thorough() {
 				configs = append(configs,
 					Case{Prog: p.Name, N: 64, Reps: 2, Entries: allEntries, Shared: true, Unique: true, Procs: 16},
-					Case{Prog: p.Name, Second: second, N: 16, Reps: reps, Entries: allEntries, Writer: firstOther(p), Procs: 16},
+					// (only the page is rewritten: it is read once per render, so every result is
+					// that of the old or of the new version; a component that is included several
+					// times may legitimately be seen in both versions within one render)
+					Case{Prog: p.Name, Second: second, N: 16, Reps: reps, Entries: allEntries, Writer: "page.vuego", Procs: 16},
 				)
 			}
 			for _, c := range configs {
@@ -515,20 +518,6 @@ func TestProp(t *testing.T) {
 		return c
 	}, classify, check)
 	rec.Note("max goroutines observed in flight at once in the last case: %d", atomic.LoadInt64(&raceSeen))
-}
-
-func firstOther(p cat.Program) string {
-	var names []string
-	for n := range p.Files {
-		if n != "page.vuego" {
-			names = append(names, n)
-		}
-	}
-	sort.Strings(names)
-	if len(names) > 0 {
-		return names[0]
-	}
-	return "page.vuego"
 }
 
 func TestReplay(t *testing.T) { run.ReplayMain(t, prop, replay) }
